@@ -1509,6 +1509,22 @@ func sliceToArrayPointer(t_dst, t_src types.Type, x value) value {
 // interface itype.
 // On success it returns "", on failure, an error message.
 func checkInterface(i *interpreter, itype *types.Interface, x iface) string {
+	switch x.t {
+	case rtypeType:
+		// the fake reflect.Type implementation: satisfies reflect.Type and
+		// any interface made of methods we model (or none)
+		for j := 0; j < itype.NumMethods(); j++ {
+			name := itype.Method(j).Name()
+			if _, ok := i.rtypeMethods[name]; !ok && !rtypeUnmodelled[name] {
+				return fmt.Sprintf("interface conversion: reflect.rtype is not %v: missing method %s", itype, name)
+			}
+		}
+		return ""
+	case errorType:
+		if itype.NumMethods() == 0 || (itype.NumMethods() == 1 && itype.Method(0).Name() == "Error") {
+			return ""
+		}
+	}
 	if meth, _ := types.MissingMethod(x.t, itype, true); meth != nil {
 		return fmt.Sprintf("interface conversion: %v is not %v: missing method %s",
 			x.t, itype, meth.Name())
